@@ -142,13 +142,18 @@ Proof. repeat split; vm_compute; reflexivity. Qed.
 
 (** ** The session theorems for the policy of the current source *)
 
+Theorem source_session_eq_wrun : forall h s,
+  s_world (fst (srun memo_policy_of_source h s)) = wrun h (s_world s) /\
+  snd (srun memo_policy_of_source h s) = wtrace h (s_world s).
+Proof. rewrite gen_memo_policy_per_build. exact session_per_build_eq_wrun. Qed.
+
 Theorem source_session_eq_run : forall h s,
-  s_world (fst (srun memo_policy_of_source h s)) = run (plain h) (s_world s) /\
-  snd (srun memo_policy_of_source h s) = trace (plain h) (s_world s).
+  no_wipeb h = true ->
+  s_world (fst (srun memo_policy_of_source h s)) = run (plain h) (s_world s).
 Proof. rewrite gen_memo_policy_per_build. exact session_per_build_eq_run. Qed.
 
 Theorem source_session_incremental_eq_clean : forall h rs src always always' ts s1 e1 L,
-  hist_in_scope (plain h) (empty_world rs src) ->
+  shist_in_scope h (empty_world rs src) ->
   let s := fst (srun memo_policy_of_source h (new_session rs src)) in
   build_in_scope ts (s_world s) -> load_world (s_world s) ts = LOk L ->
   sbuild memo_policy_of_source always ts s = (s1, e1, BOk) ->
@@ -161,7 +166,7 @@ Theorem source_session_incremental_eq_clean : forall h rs src always always' ts 
 Proof. rewrite gen_memo_policy_per_build. exact session_incremental_eq_clean. Qed.
 
 Theorem source_session_noop_rebuild : forall h rs src always ts s1 e1,
-  hist_in_scope (plain h) (empty_world rs src) ->
+  shist_in_scope h (empty_world rs src) ->
   let s := fst (srun memo_policy_of_source h (new_session rs src)) in
   build_in_scope ts (s_world s) ->
   sbuild memo_policy_of_source always ts s = (s1, e1, BOk) ->
@@ -169,7 +174,7 @@ Theorem source_session_noop_rebuild : forall h rs src always ts s1 e1,
 Proof. rewrite gen_memo_policy_per_build. exact session_noop_rebuild. Qed.
 
 Theorem source_session_failed_not_remembered : forall h rs src always ts s1 ex e L,
-  hist_in_scope (plain h) (empty_world rs src) ->
+  shist_in_scope h (empty_world rs src) ->
   let s := fst (srun memo_policy_of_source h (new_session rs src)) in
   build_in_scope ts (s_world s) -> load_world (s_world s) ts = LOk L ->
   sbuild memo_policy_of_source always ts s = (s1, ex, BFail e) ->
